@@ -48,6 +48,9 @@ type svBeh struct {
 	// until the harness has logged that line, so that a failure can be placed inside another service's linger
 	// without any wall-clock coordination.
 	After string `json:"after"`
+	// Barrier > 0: after logging its Exit line the runnable waits (at most 1 s) until Barrier runnables of the tree
+	// have logged theirs, and only then returns: their death notices reach the processor within microseconds.
+	Barrier int `json:"barrier"`
 }
 
 type svShape struct {
@@ -102,8 +105,12 @@ type svTree struct {
 	active   map[string]int     // instances entered and not exited per dn
 	cur      map[string]*svInst // latest instance per dn
 	lastProg time.Time
-	seen     map[string]bool // "dn#inst:Ev" of every logged service line
-	lastSnap string          // JSON of the snapshot of the last logged line
+	seen     map[string]bool          // "dn#inst:Ev" of every logged service line
+	lastSnap string                   // JSON of the snapshot of the last logged line
+	atBar    int                      // runnables that logged Exit and wait at the barrier
+	barC     chan struct{}            // closed when the barrier is full
+	trig     map[string]chan struct{} // closed when the line "dn#inst:Ev" is logged (releases held End actions at once)
+	hotUntil time.Time                // observer: sample without sleeping until then (a runnable has just returned)
 	killed   bool
 	ended    bool
 	doubles  int
@@ -159,8 +166,11 @@ func (t *svTree) emit(ev string, a map[string]interface{}) {
 	}
 	if dn, ok := a["dn"].(string); ok {
 		if no, ok := a["inst"].(int); ok {
-			t.seen[fmt.Sprintf("%s#%d:%s", dn, no, ev)] = true
+			t.fire(fmt.Sprintf("%s#%d:%s", dn, no, ev))
 		}
+	}
+	if ev == "AllUp" {
+		t.fire("AllUp")
 	}
 	snap := t.snapshot()
 	if sb, err := json.Marshal(snap); err == nil {
@@ -174,6 +184,9 @@ func (t *svTree) emit(ev string, a map[string]interface{}) {
 	svT.w.WriteByte('\n')
 	svT.w.Flush() // a crash of the processor goroutine kills the process: keep what was recorded
 	t.lastProg = time.Now()
+	if ev == "Exit" {
+		t.hotUntil = t.lastProg.Add(3 * time.Millisecond) // death notice, restart scan (1 ms tick) follow shortly
+	}
 	svLastLine.Store(t.lastProg.UnixNano())
 }
 
@@ -185,6 +198,32 @@ func (t *svTree) log(ev string, a map[string]interface{}, call func()) {
 		call()
 	}
 	t.emit(ev, a)
+}
+
+// fire marks the line `key` as logged and releases whoever waits for it.  Caller holds the harness mutex.
+func (t *svTree) fire(key string) {
+	t.seen[key] = true
+	if ch, ok := t.trig[key]; ok {
+		close(ch)
+		delete(t.trig, key)
+	}
+}
+
+// released returns a channel that is closed once the line `key` has been logged.  Caller must not hold the mutex.
+func (t *svTree) released(key string) <-chan struct{} {
+	svT.mu.Lock()
+	defer svT.mu.Unlock()
+	if t.seen[key] {
+		ch := make(chan struct{})
+		close(ch)
+		return ch
+	}
+	ch, ok := t.trig[key]
+	if !ok {
+		ch = make(chan struct{})
+		t.trig[key] = ch
+	}
+	return ch
 }
 
 var errScripted = errors.New("scripted failure")
@@ -218,7 +257,24 @@ func (t *svTree) runnable(dn string) Runnable {
 				in.resting = true
 			}
 			t.emit("Exit", map[string]interface{}{"dn": dn, "inst": no, "kind": kind})
+			var bar chan struct{}
+			if in.beh.Barrier > 0 && kind != "ctxErr" {
+				t.atBar++
+				if t.atBar >= in.beh.Barrier {
+					close(t.barC)
+					t.barC = make(chan struct{})
+					t.atBar = 0
+				} else {
+					bar = t.barC
+				}
+			}
 			svT.mu.Unlock()
+			if bar != nil {
+				select {
+				case <-bar:
+				case <-time.After(time.Second):
+				}
+			}
 		}
 
 		// A panic that is not the scripted one (the supervisor's API panics when a signal does not fit the node state)
@@ -260,6 +316,10 @@ func (t *svTree) runnable(dn string) Runnable {
 		step := 0
 		fault := in.beh.End != "stay" && in.beh.End != "done"
 		holdUntil := time.Now().Add(6 * time.Second) // a trigger that never comes does not hold the End back for ever
+		var rel <-chan struct{}                      // nil (never ready) unless the End action waits for a line
+		if in.beh.After != "" {
+			rel = t.released(in.beh.After)
+		}
 		for {
 			if sawc {
 				if lat <= 0 {
@@ -302,6 +362,9 @@ func (t *svTree) runnable(dn string) Runnable {
 				select {
 				case <-ctx.Done():
 					tm.Stop()
+				case <-rel:
+					tm.Stop()
+					rel = nil
 				case <-tm.C:
 				}
 			}
@@ -406,10 +469,19 @@ func (t *svTree) drive(dir string, stall time.Duration) {
 	if t.sc.ObserveUs > 0 {
 		poll1 = time.Duration(t.sc.ObserveUs) * time.Microsecond
 	}
+	hot := false
 	for {
-		time.Sleep(poll1)
+		if hot {
+			runtime.Gosched()
+		} else {
+			time.Sleep(poll1)
+		}
 		svT.mu.Lock()
+		hot = t.sc.ObserveUs > 0 && time.Now().Before(t.hotUntil)
 		if t.sc.ObserveUs > 0 {
+			if !t.seen["AllUp"] && len(t.cur) == len(t.sc.Shape.Nodes) {
+				t.emit("AllUp", nil) // every service of the shape has entered: releases End actions held with after = "AllUp"
+			}
 			if sb, err := json.Marshal(t.snapshot()); err == nil && string(sb) != t.lastSnap {
 				t.emit("Obs", nil)
 			}
@@ -561,7 +633,7 @@ func TestVerifSupervisor(t *testing.T) {
 		}
 	}()
 	for i := range scs {
-		tr := &svTree{sc: scs[i], count: map[string]int{}, active: map[string]int{}, cur: map[string]*svInst{}, seen: map[string]bool{}, lastProg: time.Now()}
+		tr := &svTree{sc: scs[i], count: map[string]int{}, active: map[string]int{}, cur: map[string]*svInst{}, seen: map[string]bool{}, trig: map[string]chan struct{}{}, barC: make(chan struct{}), lastProg: time.Now()}
 		wg.Add(1)
 		sem <- struct{}{}
 		go func() {
